@@ -136,7 +136,8 @@ type c04Case struct {
 	conf     vkConf
 	roots    []string
 	uuids    []string
-	readonly []bool
+	readonly []bool   // read-only FOR THIS SERVER (volume.ReadOnly or AccessViaHosts[this server].ReadOnly)
+	access   []string // vkVolSpec.Access of each volume
 	hashes   []string
 	blocks   map[string][]byte
 	ttl      time.Duration
@@ -187,7 +188,7 @@ func (o *c04Oracle) check(st c04Step, code int, prev, next []*c04Vol, t0, t1 tim
 	}
 	removalAllowed := func(i int, h string, m int64) (bool, string) {
 		if !c04Writable(cs, i) {
-			return false, "volume is read-only"
+			return false, fmt.Sprintf("the mount is read-only for this server (Volumes.ReadOnly=%v, AccessViaHosts mode %q)", cs.conf.Vols[i].ReadOnly, cs.access[i])
 		}
 		if !o.cl.blobTrash {
 			return false, "BlobTrash is off"
@@ -364,10 +365,23 @@ func TestVerifC04Histories(t *testing.T) {
 		for i := 0; i < nvol; i++ {
 			root := filepath.Join(base, fmt.Sprintf("vol%d", i))
 			os.MkdirAll(root, 0755)
-			ro := vkPick(t, fmt.Sprintf("ro%d", i), 4) == 0
-			uuid := fmt.Sprintf("zzzzz-nyw5e-%015d", i)
-			cs.roots, cs.uuids, cs.readonly = append(cs.roots, root), append(cs.uuids, uuid), append(cs.readonly, ro)
-			cs.conf.Vols = append(cs.conf.Vols, vkVolSpec{UUID: uuid, Root: root, ReadOnly: ro, Serialize: serialize})
+			// how the mount is configured for this server: read-write,
+			// volume.ReadOnly, read-only only through AccessViaHosts (the
+			// volume itself is NOT marked read-only), or read-write through
+			// AccessViaHosts while another server has it read-only
+			vs := vkVolSpec{UUID: fmt.Sprintf("zzzzz-nyw5e-%015d", i), Root: root, Serialize: serialize}
+			switch vkPick(t, fmt.Sprintf("ro%d", i), 16) {
+			case 0, 1:
+				vs.ReadOnly = true
+			case 2, 3, 4:
+				vs.Access = vkAccessROHost
+			case 5:
+				vs.ReadOnly, vs.Access = true, vkAccessRWViaHost
+			case 6, 7:
+				vs.Access = vkAccessRWViaHost
+			}
+			cs.roots, cs.uuids, cs.readonly, cs.access = append(cs.roots, root), append(cs.uuids, vs.UUID), append(cs.readonly, vs.ReadOnlyHere()), append(cs.access, vs.Access)
+			cs.conf.Vols = append(cs.conf.Vols, vs)
 		}
 		for i := 0; i < 3; i++ {
 			b := []byte(fmt.Sprintf("c04 block %d %d", i, rapid.IntRange(0, 1000).Draw(t, "blk")))
@@ -438,6 +452,14 @@ func TestVerifC04Histories(t *testing.T) {
 				st.Op = "direct-" + vkPickStr(t, "directop", []string{"trash", "untrash", "touch", "put", "emptytrash"})
 				st.Vol = vkPick(t, "vol", nvol)
 			}
+			if strings.HasPrefix(st.Op, "direct-") && cs.access[st.Vol] == vkAccessROHost {
+				// keepstore reaches Trash/Untrash/Touch/Put/EmptyTrash of a
+				// mount only through volmgr.AllWritable / NextWritable /
+				// Lookup(uuid, needWrite=true); a volume that is read-only
+				// merely through AccessViaHosts has no check of its own, so
+				// a direct call is not something keepstore does.
+				continue
+			}
 			var code int
 			t0 := time.Now()
 			switch st.Op {
@@ -468,10 +490,21 @@ func TestVerifC04Histories(t *testing.T) {
 				n := 1 + vkPick(t, "nentries", 3)
 				for k := 0; k < n; k++ {
 					e := c04Entry{Locator: cs.hashes[vkPick(t, "ehash", len(cs.hashes))]}
+					switch vkPick(t, "emount", 5) {
+					case 0:
+						e.MountUUID = "zzzzz-nyw5e-999999999999999"
+					case 1, 2:
+						e.MountUUID = cs.uuids[vkPick(t, "emountvol", nvol)]
+					}
 					var stored []int64
-					for _, v := range prev {
+					for i, v := range prev {
 						if m, ok := v.present[e.Locator]; ok {
 							stored = append(stored, m)
+							if cs.uuids[i] == e.MountUUID && vkPick(t, "namedmountmtime", 4) != 0 {
+								// mostly the timestamp stored on the named mount
+								stored = []int64{m}
+								break
+							}
 						}
 					}
 					mk := vkPick(t, "emtime", 8)
@@ -486,12 +519,6 @@ func TestVerifC04Histories(t *testing.T) {
 						e.BlockMtime = t0.UnixNano()
 					default:
 						e.BlockMtime = t0.Add(-c04Age(t, "stale", cs.ttl, 2)).UnixNano()
-					}
-					switch vkPick(t, "emount", 5) {
-					case 0:
-						e.MountUUID = "zzzzz-nyw5e-999999999999999"
-					case 1, 2:
-						e.MountUUID = cs.uuids[vkPick(t, "emountvol", nvol)]
 					}
 					st.Entries = append(st.Entries, e)
 				}
@@ -565,11 +592,15 @@ func TestVerifC04Histories(t *testing.T) {
 					stats.Label("history-ended-by-known-finding")
 					return
 				}
-				t.Fatalf("C04 violated: %s\n config: TTL=%v BlobTrash=%v lifetime=%v deleteconc=%d readonly=%v\n initial: %v\n history: %s\n before: %v\n after:  %v\n log:\n%s",
-					msg, cs.ttl, o.cl.blobTrash, o.cl.lifetime, o.cl.deleteConc, cs.readonly, initDesc, strings.Join(o.history, "; "), prev, next, log.String())
+				t.Fatalf("C04 violated: %s\n config: TTL=%v BlobTrash=%v lifetime=%v deleteconc=%d readonly(for this server)=%v access-via-hosts=%q\n initial: %v\n history: %s\n before: %v\n after:  %v\n log:\n%s",
+					msg, cs.ttl, o.cl.blobTrash, o.cl.lifetime, o.cl.deleteConc, cs.readonly, cs.access, initDesc, strings.Join(o.history, "; "), prev, next, log.String())
 			}
 			// coverage bookkeeping
 			labels["op:"+st.Op] = true
+			for _, l := range c04ROAttempts(cs, o.cl, st, prev, t1) {
+				labels[l] = true
+				stats.Label("step:" + l)
+			}
 			if (st.Op == "put" || st.Op == "touch") && code == 200 {
 				protected[st.Hash] = true
 				labels["ack:"+st.Op] = true
@@ -645,11 +676,85 @@ func TestVerifC04Histories(t *testing.T) {
 				break
 			}
 		}
+		for i := range cs.access {
+			if cs.access[i] == vkAccessROHost {
+				ls = append(ls, "has-ro-host-volume")
+				break
+			}
+		}
+		for i := range cs.access {
+			if cs.access[i] == vkAccessRWViaHost && !cs.readonly[i] {
+				ls = append(ls, "has-rw-via-host-volume")
+				break
+			}
+		}
 		stats.Case(stats.FP(cs.conf.TTL, cs.conf.BlobTrash, cs.readonly, initDesc, strings.Join(o.history, ";")), protectThenTrash, ls...)
 		if protectThenTrash && stats.WantSample("history") {
 			stats.Sample("history", map[string]interface{}{"ttl": cs.ttl.String(), "readonly": cs.readonly, "initial": initDesc, "history": o.history})
 		}
 	})
+}
+
+// c04ROAttempts measures (labels only, no verdict) how often a request is
+// aimed at a mount that is read-only for this server and would have changed it
+// had the mount been writable: "<ro-host|ro-config>:<request>". ro-host = the
+// mount is read-only only through AccessViaHosts[this server].ReadOnly.
+func c04ROAttempts(cs *c04Case, cl *clusterView, st c04Step, prev []*c04Vol, now time.Time) []string {
+	var out []string
+	for i := range cs.roots {
+		if !cs.readonly[i] {
+			continue
+		}
+		kind := "ro-config"
+		if cs.access[i] == vkAccessROHost && !cs.conf.Vols[i].ReadOnly {
+			kind = "ro-host"
+		}
+		trashable := func(h string) (int64, bool) {
+			m, ok := prev[i].present[h]
+			return m, ok && cl.blobTrash && now.Sub(time.Unix(0, m)) >= cs.ttl
+		}
+		switch st.Op {
+		case "delete":
+			if _, ok := trashable(st.Hash); ok {
+				out = append(out, kind+":delete-of-trashable-replica")
+			}
+		case "trashlist":
+			for _, e := range st.Entries {
+				if m, ok := trashable(e.Locator); ok && m == e.BlockMtime {
+					switch e.MountUUID {
+					case "":
+						out = append(out, kind+":trashlist-entry-without-mount-matches-replica")
+					case cs.uuids[i]:
+						out = append(out, kind+":trashlist-entry-naming-the-mount-matches-replica")
+					}
+				}
+			}
+		case "untrash":
+			if len(prev[i].trash[st.Hash]) > 0 {
+				out = append(out, kind+":untrash-of-trashed-copy")
+			}
+		case "emptytrash":
+			for _, h := range cs.hashes {
+				for d := range prev[i].trash[h] {
+					if d < now.Unix()-1 && cl.deleteConc >= 1 {
+						out = append(out, kind+":emptytrash-with-expired-copy")
+					}
+				}
+			}
+		case "put", "touch":
+			if st.Hash != "" {
+				out = append(out, kind+":"+st.Op)
+			}
+		}
+	}
+	sort.Strings(out)
+	uniq := out[:0]
+	for k, l := range out {
+		if k == 0 || l != out[k-1] {
+			uniq = append(uniq, l)
+		}
+	}
+	return uniq
 }
 
 // c04KnownUntrashRegression is the classifier of the known finding
